@@ -23,9 +23,10 @@
 //      the source text with ONLY the rand expression replaced by a fresh
 //      symbolic bool; because a stub replaces the whole function, the
 //      deterministic arms (slip == 0 => false, slip == 1 => true) are a copy
-//      too.  `SHOULD_SLIP_SOURCE_IS_AS_MODELLED` below makes the build fail
-//      (=> inconclusive, never a pass) if the source text of `should_slip`
-//      is not character for character the text the model was copied from.
+//      too.  `S4_SOURCE_OK` below is computed at compile time from the host
+//      module's source text; every harness carries a cover witness for it,
+//      so the run is inconclusive (never a pass) if `should_slip` is not
+//      character for character the text the model was copied from.
 //
 //  A1  `RandomState` is built by transmuting two fixed u64 keys (its only
 //      constructor, `RandomState::new`, calls getrandom FFI).  Claims hold
@@ -37,6 +38,22 @@
 //      same bucket; collisions between different streams are therefore the
 //      "forget the old entry" branch, which the harnesses do exercise.
 //
+//  A3  Response buffers are 64 octets (128 where records are written), not
+//      the 512 / 65535 the server uses: `Writer::new(buf, 512)` limits itself
+//      to min(512, buf.len()), and the limiter never looks at the limit; a
+//      512-octet buffer only multiplies CBMC's work (measured: 24 s -> 2 s
+//      symbolic execution for one call).
+//
+//  A4  Unwinding: `#[kani::unwind(N)]` is global.  A heap `Name` keeps its
+//      label count and offsets in memory that CBMC does not constant-fold,
+//      so every loop over labels is unrolled to the bound; bounds are
+//      therefore as small as the concrete names allow (unwinding assertions
+//      are on).  The pair harnesses need 11 iterations for the one loop in
+//      `ReceivedInfo::new` that scans 10 address octets; it gets its own
+//      bound through `--unwindset` (loop id = mangled name, which embeds the
+//      toolchain's crate hashes: if it stops matching, the global bound 5
+//      applies and the unwinding assertion fails => inconclusive, not pass).
+//
 // Time is observed relative to an origin 2^37 s before the first clock
 // reading, so that every instant a harness creates is representable as a
 // non-negative (secs, nanos) pair; the reference bucket does its own
@@ -47,7 +64,10 @@
 // The harnesses are written so that they still mean the same thing there:
 // the first elapsed time is produced by back-dating the bucket relative to
 // whatever `Instant::now()` returns, and `elapse` back-dates the bucket
-// when it sees that the clock did not jump.
+// when it sees that the clock did not jump.  What cannot reproduce natively
+// is a counterexample that depends on the exact nanosecond (the real clock
+// moves a few microseconds between the harness's reading and the
+// limiter's), or on the symbolic coin of slip > 1.
 
 use super::super::{Context, ReceivedInfo, Transport};
 use super::*;
@@ -145,24 +165,19 @@ const fn occurrences(hay: &[u8], needle: &[u8]) -> usize {
     count
 }
 
-/// Compile-time check that S4 models the function that is really there.
-const SHOULD_SLIP_SOURCE_IS_AS_MODELLED: () = {
-    assert!(
-        occurrences(HOST_SOURCE.as_bytes(), SHOULD_SLIP_SOURCE.as_bytes()) == 1,
-        "Rrl::should_slip no longer has the source text that stub S4 was copied from"
-    );
-    assert!(
-        occurrences(HOST_SOURCE.as_bytes(), b"fn should_slip(") == 1,
-        "more than one should_slip in the host module"
-    );
-};
+/// Whether S4 models the function that is really there.  Evaluated by rustc
+/// at compile time; reported through a `kani::cover!` in every harness (a
+/// failing `const _` assertion is NOT reported by kani-compiler - tried).
+const S4_SOURCE_OK: bool = occurrences(HOST_SOURCE.as_bytes(), SHOULD_SLIP_SOURCE.as_bytes()) == 1
+    && occurrences(HOST_SOURCE.as_bytes(), b"fn should_slip(") == 1;
 
 // --------------------------------------------------------------------------
 // A1: fixed-key RandomState
 // --------------------------------------------------------------------------
 
 fn fixed_random_state() -> RandomState {
-    let _ = SHOULD_SLIP_SOURCE_IS_AS_MODELLED;
+    // every harness builds its limiter through this function exactly once
+    kani::cover!(S4_SOURCE_OK, "stub S4: Rrl::should_slip still has the source text the model was copied from");
     // RandomState { k0: u64, k1: u64 }
     unsafe { core::mem::transmute::<[u64; 2], RandomState>([0x0123_4567_89ab_cdef, 0xfedc_ba98_7654_3210]) }
 }
